@@ -6,6 +6,7 @@ package resources
 import (
 	"errors"
 	"fmt"
+	"slices"
 	"strconv"
 	"strings"
 
@@ -84,19 +85,22 @@ func GetNumGPUFractionDevices(pod *v1.Pod) (int64, error) {
 	return mumDevicesValue, nil
 }
 
+// GetGpuGroups returns the GPU groups a pod is attached to. A pod that shares a single device carries the
+// plain gpu group label; a pod that shares several devices carries one multi gpu group label per device
+// (and no plain label).
 func GetGpuGroups(pod *v1.Pod) []string {
 	var gpuGroups []string
-	gpuGroup, found := pod.Labels[constants.GPUGroup]
-	if !found {
-		return nil
+	if gpuGroup, found := pod.Labels[constants.GPUGroup]; found {
+		gpuGroups = append(gpuGroups, gpuGroup)
 	}
-	gpuGroups = append(gpuGroups, gpuGroup)
+	var multiGpuGroups []string
 	for labelKey, labelValue := range pod.Labels {
-		if strings.HasPrefix(labelKey, constants.MultiGpuGroupLabelPrefix) {
-			gpuGroups = append(gpuGroups, labelValue)
+		if strings.HasPrefix(labelKey, constants.MultiGpuGroupLabelPrefix) && !slices.Contains(gpuGroups, labelValue) {
+			multiGpuGroups = append(multiGpuGroups, labelValue)
 		}
 	}
-	return gpuGroups
+	slices.Sort(multiGpuGroups)
+	return append(gpuGroups, multiGpuGroups...)
 }
 
 func GetMultiFractionGpuGroupLabel(gpuGroup string) (string, string) {
